@@ -128,6 +128,46 @@ func (rn *runner) runCase(shapeName string, c *sCase) {
 			e.f.add(fmt.Sprintf("sound:%s:%s:%s:%s", c.Rule, shapeName, rn.st.Name, "verifytx"), rec("verifytx", v))
 		}
 	}
+	if len(canon) < 20000 || rn.st.Name == "preamble" {
+		v := rn.submitRPCTx(c.Tx)
+		if v.Class != "no-rpc" {
+			e.count.sound.Inc()
+			e.count.rpc.Inc()
+			switch {
+			case c.NoDemand != "":
+				e.out("rpc", "no-demand->"+v.Class)
+			default:
+				e.out("rpc", wantStr(c.Want)+"->"+v.Class)
+				if v.OK != c.Want || v.Class == "PANIC" {
+					e.f.add(fmt.Sprintf("sound:%s:%s:%s:%s", c.Rule, shapeName, rn.st.Name, "rpc"), rec("rpc", v))
+				}
+			}
+			if !v.OK {
+				if after := rn.poolList(); after != before {
+					r := rec("rpc", v)
+					r.Note = "mempool listing changed by a rejected transaction: " + before + " -> " + after
+					e.f.add(fmt.Sprintf("sound-effect:pool:%s:%s:%s", c.Rule, shapeName, rn.st.Name), r)
+				}
+			}
+		}
+	}
+	{
+		v := rn.submitP2P(c.Tx)
+		e.count.sound.Inc()
+		e.count.p2p.Inc()
+		if c.NoDemand != "" {
+			e.out("p2p-message", "no-demand->"+v.Class)
+		} else {
+			e.out("p2p-message", wantStr(c.Want)+"->"+v.Class)
+			if v.OK != c.Want || v.Class == "PANIC" {
+				e.f.add(fmt.Sprintf("sound:%s:%s:%s:%s", c.Rule, shapeName, rn.st.Name, "p2p"), rec("p2p", v))
+			} else if v.Dec && res[pathFromBytes].Dec && (v.Hash != res[pathFromBytes].Hash || v.Size != res[pathFromBytes].Size) {
+				r := rec("p2p", v)
+				r.Note = fmt.Sprintf("hash/size through the P2P message %s/%d, through the plain bytes %s/%d", v.Hash.StringLE(), v.Size, res[pathFromBytes].Hash.StringLE(), res[pathFromBytes].Size)
+				e.f.add(fmt.Sprintf("encoding:p2p-message:%s:%s:%s", c.Rule, shapeName, rn.st.Name), r)
+			}
+		}
+	}
 	if res[pathFromBytes].Dec && len(c.Pre) == 0 {
 		rn.partialPath(shapeName, c, rec)
 	}
